@@ -570,6 +570,35 @@ func (p *lwRep) seq(m *lwMeta, law string, got []any, x []any) {
 	}
 }
 
+// arity: a positional view (tuple components, Unapply results, Apply parameters) must have
+// exactly one position per field of the spec that gombok keeps.
+func (p *lwRep) arity(m *lwMeta, view string, got int, kept []string) {
+	p.ev(m.name, 1)
+	if got != len(kept) {
+		p.fail(m.name, "field-set-"+view, "-", "-", fmt.Sprintf("%d positions, but the spec keeps %d fields %v", got, len(kept), kept))
+	}
+}
+
+// twin: the Mutable twin has one field per field of the spec (all of them, skipped ones
+// included), in declaration order; embedded fields stay embedded.
+func (p *lwRep) twin(m *lwMeta, mt reflect.Type, names []string, anon []bool) {
+	p.ev(m.name, 1)
+	if mt.NumField() != len(names) {
+		var got []string
+		for i := 0; i < mt.NumField(); i++ {
+			got = append(got, mt.Field(i).Name)
+		}
+		p.fail(m.name, "field-set-mutable", "-", "-", fmt.Sprintf("Mutable twin has %d fields %v, the spec has %d %v", mt.NumField(), got, len(names), names))
+		return
+	}
+	for i := range names {
+		f := mt.Field(i)
+		if f.Name != names[i] || f.Anonymous != anon[i] {
+			p.fail(m.name, "field-set-mutable", names[i], "-", fmt.Sprintf("field %d of the Mutable twin is %q (embedded=%v), expected %q (embedded=%v)", i, f.Name, f.Anonymous, names[i], anon[i]))
+		}
+	}
+}
+
 func (p *lwRep) strs(m *lwMeta, law string, got []string, want []string) {
 	p.ev(m.name, 1)
 	if len(got) != len(want) {
